@@ -539,3 +539,32 @@ func init() {
 	externals["bytes.Contains"] = extContains
 	externals["strings.Contains"] = extContains
 }
+
+// os.Open / (*os.File).Read / Close: contract stub for DetectFile. The harness registers the
+// reader that stands for the file's contents with vFileReader; Open succeeds or fails with an
+// arbitrary error by nondeterministic choice.
+func init() {
+	harnessExternals["vFileReader"] = func(fr *frame, args []value) value {
+		cur.fileReader = args[0]
+		return nil
+	}
+	externals["os.Open"] = func(fr *frame, args []value) value {
+		cur.stubsUsed["os.Open/(*os.File).Read/Close"] = true
+		res := fr.fn.Signature.Results()
+		if cur.fileReader == nil || cur.ChooseN(2) == 1 {
+			return tuple{zero(res.At(0).Type()), iface{fr.i.runtimeErrorString, "open: stub error"}}
+		}
+		cell := zero(mustDeref(res.At(0).Type()))
+		return tuple{&cell, iface{}}
+	}
+	externals["(*os.File).Read"] = func(fr *frame, args []value) value {
+		rd := cur.fileReader.(iface)
+		m := lookupMethodOpt(fr.i, rd.t, "Read")
+		return call(fr.i, fr, 0, m, []value{rd.v, args[1]})
+	}
+	externals["(*os.File).Close"] = func(fr *frame, args []value) value {
+		cur.fileClosed++
+		return iface{}
+	}
+	harnessExternals["vFileClosed"] = func(fr *frame, args []value) value { return cur.fileClosed }
+}
